@@ -322,7 +322,7 @@ pub fn exec(obj: &Obj, loc: &mut Locals, op: &Value) -> Value {
             match k {
                 "with" => { loc.hh.insert(hs, hv.with_label_values(&[key])); json!(0) }
                 "hinc" => { loc.hh.get(&hs).expect("handle").observe(v); json!(0) }
-                "hget" => json!(loc.hh.get(&hs).expect("handle").get_sample_count()),
+                "hget" => num(loc.hh.get(&hs).expect("handle").get_sample_sum()),
                 "remove" => json!(if hv.remove_label_values(&[key]).is_ok() { "ok" } else { "err" }),
                 "reset" => { hv.reset(); json!(0) }
                 "collect" => collect_vec_pairs(hv.collect(), true),
